@@ -15,6 +15,9 @@ pub mod venv {
     #[verifier::external_body]
     pub fn extend_from(a: &mut HashMap<String, String>, b: &HashMap<String, String>)
         ensures envmap(*final(a)) == envmap(*old(a)).union_prefer_right(envmap(*b)) { unimplemented!() }
+    // M.is_empty() on an environment map
+    #[verifier::external_body]
+    pub fn map_is_empty(h: &HashMap<String, String>) -> (r: bool) ensures r == (envmap(*h) =~= Map::<Seq<char>, Seq<char>>::empty()) { h.is_empty() }
     // documented precedence of one set_env call: the given variables over what is already set over the daemon's environment
     pub open spec fn set_env_spec(old: Map<Seq<char>, Seq<char>>, given: Map<Seq<char>, Seq<char>>) -> Map<Seq<char>, Seq<char>> {
         proc_env().union_prefer_right(old).union_prefer_right(given)
